@@ -332,7 +332,12 @@ pub fn run_huge(is_async: bool, base: &Arc<Vec<u8>>, repeat: u64, storage: bool,
         let mut v = vec![];
         let mut s = 0usize;
         for e in &ends {
-            v.push(dlt_message(&base[s..*e], None, storage).expect("base message parses").1);
+            // the oracle is "the reader returns what slice parsing returns"; where slice parsing of a
+            // base message fails there is no expectation to compare with (not judged here: C01/C02)
+            match catch(|| dlt_message(&base[s..*e], None, storage).map(|r| r.1)) {
+                Ok(Ok(m)) => v.push(m),
+                _ => return Ok(BulkStats::default()),
+            }
             s = *e;
         }
         v
